@@ -9,6 +9,8 @@ subprocess.run(['git', '-C', '/repo', 'worktree', 'remove', '--force', WT], capt
 subprocess.run(['git', '-C', '/repo', 'worktree', 'add', '-q', '--detach', WT, 'HEAD'], check=True)
 env = dict(os.environ, CARGO_NET_OFFLINE='true', CARGO_TARGET_DIR='/tmp/seed/vtarget')
 out = {}
+if os.path.exists('/verif/selftest/verified.json'):
+    out = json.load(open('/verif/selftest/verified.json')).get('results', {})
 head = subprocess.run(['git', '-C', '/repo', 'rev-parse', '--short', 'HEAD'], capture_output=True, text=True).stdout.strip()
 items = [(m[0], m[1], m[2], m[3]) for m in MUTANTS] + [(k[0], k[1], k[2], k[3]) for k in KEEP]
 only = set(sys.argv[1].split(',')) if len(sys.argv) > 1 else None
